@@ -106,6 +106,9 @@ func (v sVal) render(pre string) string {
 		return fmt.Sprintf("[%q %q]", v.S, v.S+"2")
 	case "floats":
 		return fmt.Sprintf("[%d.5]", v.I)
+	case "nilarr":
+		// an array whose first element has no type of its own
+		return fmt.Sprintf("[nil %d]", v.I)
 	case "pint":
 		return fmt.Sprintf("(& %d)", v.I)
 	case "pstr":
@@ -315,6 +318,9 @@ func (m *sModel) accept(ft mType, v mv) int {
 		if v.K == "empty" {
 			return vMust
 		}
+		if v.K == "nilarr" {
+			return vEither // [nil 1] has no element type to compare with the declared one
+		}
 		if v.K == map[string]string{"int64": "ints", "string": "strs", "float64": "floats"}[ft.Elem] {
 			return vMust
 		}
@@ -363,7 +369,7 @@ func (m *sModel) value(v sVal) (mv, int, []*mInst) {
 		return mv{K: "str", S: v.S}, vMust, nil
 	case "nil", "empty", "hash":
 		return mv{K: v.K}, vMust, nil
-	case "ints", "floats", "pint":
+	case "ints", "floats", "pint", "nilarr":
 		return mv{K: v.K, I: v.I}, vMust, nil
 	case "strs", "pstr":
 		return mv{K: v.K, S: v.S}, vMust, nil
@@ -575,6 +581,12 @@ func cmpVal(env *zygo.Zlisp, pre string, actual zygo.Sexp, want mv, seen map[*mI
 			x, ok1 := a.Val[0].(*zygo.SexpStr)
 			y, ok2 := a.Val[1].(*zygo.SexpStr)
 			if ok1 && ok2 && x.S == want.S && y.S == want.S+"2" {
+				return ""
+			}
+		}
+	case "nilarr":
+		if a, ok := actual.(*zygo.SexpArray); ok && len(a.Val) == 2 && a.Val[0] == zygo.SexpNull {
+			if y, ok := a.Val[1].(*zygo.SexpInt); ok && y.Val == want.I {
 				return ""
 			}
 		}
@@ -842,7 +854,7 @@ func (g *sGen) allVars() []string {
 
 // baseVal: a value of a base kind
 func (g *sGen) anyVal(depth int) sVal {
-	kinds := []string{"int", "float", "str", "bool", "nil", "empty", "ints", "strs", "floats", "pint", "pstr", "hash"}
+	kinds := []string{"int", "float", "str", "bool", "nil", "empty", "ints", "strs", "floats", "nilarr", "pint", "pstr", "hash"}
 	if len(g.m.vars) > 0 {
 		kinds = append(kinds, "pinst", "inst", "inst")
 	}
@@ -855,7 +867,7 @@ func (g *sGen) anyVal(depth int) sVal {
 func (g *sGen) valOfKind(k string, depth int, typ string) sVal {
 	v := sVal{K: k}
 	switch k {
-	case "int", "float", "ints", "floats", "pint":
+	case "int", "float", "ints", "floats", "pint", "nilarr":
 		v.I = int64(g.pick(90, "vi"))
 	case "bool":
 		v.I = int64(g.pick(2, "vb"))
@@ -1154,7 +1166,7 @@ func genStructHistory(t *rapid.T) (structCase, []string, bool) {
 func TestC17(t *testing.T) {
 	p := begin(t, "C17")
 	r := p.r
-	r.SetRule("case = history of 4-30 steps on one interpreter: (struct N [fields]) declarations and REdeclarations of up to 3 names with 1-4 fields over int64 float64 string bool ([]int64) ([]string) ([]float64) (* int64) (* string) (* N) N; constructions (def x (N F: v ..)); field writes through routes {hset, hset with [F:] key, hset with a string key, infix {x.F = v}, (set x.F v), inside a function via hset and via infix, through (* (& x)), two-hop {x.G.F = v}, (set x.G.F v), (hset x.G F: v), (hset (:G x) F: v), through a pointer field (hset (* (:P x)) F: v)}; (derefSet (& x) y); aliases; decoding through unjson of raw JSON (with and without zKeyOrder) and unjson/unmsgpack of an encoded generic hash naming the type; values of every kind (right type, wrong type, nil, [], pointers, instances of the same / another struct / another version, inline constructions, plain hashes), fields declared / undeclared / declared only in another version. Oracle: declaration model with versions (an instance keeps the version current at its creation): must-accept writes succeed, must-reject writes return an error, and after EVERY step every instance reachable from a variable is read back through the Go API (field set, value kinds and values, object identity) and equals the model. Non-trivial: >=2 write routes, >=1 rejected write, and a declared slice/pointer/struct field. Distinct by history text.")
+	r.SetRule("case = history of 4-30 steps on one interpreter: (struct N [fields]) declarations and REdeclarations of up to 3 names with 1-4 fields over int64 float64 string bool ([]int64) ([]string) ([]float64) (* int64) (* string) (* N) N; constructions (def x (N F: v ..)); field writes through routes {hset, hset with [F:] key, hset with a string key, infix {x.F = v}, (set x.F v), inside a function via hset and via infix, through (* (& x)), two-hop {x.G.F = v}, (set x.G.F v), (hset x.G F: v), (hset (:G x) F: v), through a pointer field (hset (* (:P x)) F: v)}; (derefSet (& x) y); aliases; decoding through unjson of raw JSON (with and without zKeyOrder) and unjson/unmsgpack of an encoded generic hash naming the type; values of every kind (right type, wrong type, nil, [], arrays starting with nil, pointers, instances of the same / another struct / another version, inline constructions, plain hashes), fields declared / undeclared / declared only in another version. Oracle: declaration model with versions (an instance keeps the version current at its creation): must-accept writes succeed, must-reject writes return an error, and after EVERY step every instance reachable from a variable is read back through the Go API (field set, value kinds and values, object identity) and equals the model. Non-trivial: >=2 write routes, >=1 rejected write, and a declared slice/pointer/struct field. Distinct by history text.")
 	r.Assume("an array's type is the slice of its first element's type (zygo's own notion): only homogeneous arrays are generated", "element writes into an array held by a field are array operations, not field writes", "type-correct writes must succeed (tests/declare.zy); where the statement is silent (pointer to an instance of another version of the same name; a struct-typed field whose struct was redeclared since) either outcome is accepted but the state must match", "type names get a per-case unique prefix because the type registry is process-global")
 	p.rapidSub("history", ev.Scale(3000, 400000), func(t *rapid.T) {
 		c, labels, nt := genStructHistory(t)
